@@ -188,6 +188,10 @@ def selection_histories(M, rec, rng, n_hist):
                 ok = (type(r).__module__.endswith("engines." + nm)) and E.get_current_engine() is r and sym_metanet.engine is r and r is not model
                 if kw.get("sym_type") and r.sym_type.__name__ != kw["sym_type"]:
                     ok = False
+                if kw.get("var_type") and getattr(r, "var_type", None) != kw["var_type"]:
+                    ok = False
+                if nm == "casadi" and not kw and r.sym_type.__name__ != "SX":
+                    ok = False  # documented default symbol type
                 if not ok:
                     rec.violation(f"{PROP}:use('{nm}') did not make a new engine of that kind the current one", {"history": hist})
                 model = r
